@@ -216,6 +216,83 @@ void h0_ifloor_d(void){ double x; ifloor_d(x); __CPROVER_assert(0, "VACUITY"); }
 for u in UNITS:
     if not u.name.startswith('cast.'):
         u.template = C
+# ---------------------------------------------------------------------------------------------------------------------------------------
+# matrix3x2 algebra (extension/numeric/affine.hpp).  matrix3x2<T> is generic in T: the bodies are checked over the mathematical integers
+# (engine Z, every input in [-1024, 1024]) - the ring identities the property names hold there exactly; rounding of float / double
+# instantiations is not modelled (the "within rounding error" clause is the native replay's).
+AFF = 'boost/gil/extension/numeric/affine.hpp'
+R_AFF = [('R12.mat', r'return matrix3x2(?:<T>)?\(', 'return mat_make(', False), ('R12.pt', r'return \{(.*)\};', r'return pt_make(\1);', False),
+         ('R4.Tconst', r'\bT const\b', 'T', False), ('R12.res', r'boost::gil::matrix3x2<T> res;', 'mat_t res;', False),
+         ('R5.div', r'= ([^;=]*?) / determinant;', r'= EXACT_DIV(\1, determinant);', False), ('R4.Tcast', r'(?<![\w<])T\(', '(T)(', False)]
+X_AFF = [X('mat_mul', AFF, r'matrix3x2<T> operator\*\(const matrix3x2<T>& m1, const matrix3x2<T>& m2\) \{', count=1, rules=R_AFF),
+         X('pt_mul', AFF, r'point<F> operator\*\(point<T> const& p, matrix3x2<F> const& m\)\s*\{', count=1, rules=R_AFF),
+         X('transform', AFF, r'point<F> transform\(matrix3x2<F> const& mat, point<F2> const& src\)\s*\{', count=1, rules=[('R11.mul', r'return src \* mat;', 'return pt_mul(src, mat);', True)]),
+         X('inverse', AFF, r'boost::gil::matrix3x2<T> inverse\(boost::gil::matrix3x2<T> m\)\s*\{', count=1, rules=R_AFF),
+         X('translate', AFF, r'static matrix3x2 get_translate\(T x, T y\)\s*\{', count=1, rules=R_AFF),
+         X('scale', AFF, r'static matrix3x2 get_scale\(T x, T y\)\s*\{', count=1, rules=R_AFF),
+         X('identity', AFF, r'matrix3x2\(\) :', count=1, meminit=True)]
+AFF_C = r"""
+typedef int64_t T;
+typedef struct { T a, b, c, d, e, f; } mat_t; typedef struct { T x, y; } pt_t;
+static mat_t mat_make(T a, T b, T c, T d, T e, T f) { mat_t r; r.a = a; r.b = b; r.c = c; r.d = d; r.e = e; r.f = f; return r; }
+static pt_t pt_make(T x, T y) { pt_t r; r.x = x; r.y = y; return r; }
+/* exact division of the ring's field of fractions: the quotient q with q * d == n (inputs for which no such integer exists are not explored) */
+static T EXACT_DIV(T n, T d) { T q; __CPROVER_assume(-((T)1 << 40) <= q && q <= ((T)1 << 40)); __CPROVER_assume(q * d == n); return q; }
+mat_t mat_mul(mat_t m1, mat_t m2) @@mat_mul@@
+pt_t pt_mul(pt_t p, mat_t m) @@pt_mul@@
+pt_t transform(mat_t mat, pt_t src) @@transform@@
+mat_t inverse(mat_t m) @@inverse@@
+mat_t get_translate(T x, T y) @@translate@@
+mat_t get_scale(T x, T y) @@scale@@
+void mat_identity(mat_t* self) @@identity@@
+#ifndef VERIF_NATIVE
+#define B(v) (-1024 <= (v) && (v) <= 1024)
+#define MOK(m) (B((m).a) && B((m).b) && B((m).c) && B((m).d) && B((m).e) && B((m).f))
+#define MEQ(m, n) ((m).a == (n).a && (m).b == (n).b && (m).c == (n).c && (m).d == (n).d && (m).e == (n).e && (m).f == (n).f)
+void hz_compose(void){ mat_t m1, m2; pt_t p; __CPROVER_assume(MOK(m1) && MOK(m2) && B(p.x) && B(p.y));
+  pt_t q1 = transform(mat_mul(m1, m2), p), q2 = transform(m2, transform(m1, p));
+  __CPROVER_assert(q1.x == q2.x && q1.y == q2.y, "transform(m1*m2, p) == transform(m2, transform(m1, p)): the product maps points by m1 first, then m2");
+  __CPROVER_assert(0, "VACUITY"); }
+void hz_assoc(void){ mat_t m1, m2, m3; __CPROVER_assume(MOK(m1) && MOK(m2) && MOK(m3));
+  mat_t l = mat_mul(mat_mul(m1, m2), m3), r = mat_mul(m1, mat_mul(m2, m3));
+  __CPROVER_assert(MEQ(l, r), "(m1*m2)*m3 == m1*(m2*m3)");
+  __CPROVER_assert(0, "VACUITY"); }
+void hz_builders(void){ T x, y; pt_t p; __CPROVER_assume(B(x) && B(y) && B(p.x) && B(p.y));
+  pt_t t = transform(get_translate(x, y), p); __CPROVER_assert(t.x == p.x + x && t.y == p.y + y, "get_translate(x,y) maps p to p + (x,y)");
+  pt_t s = transform(get_scale(x, y), p); __CPROVER_assert(s.x == p.x * x && s.y == p.y * y, "get_scale(x,y) maps p to (x*p.x, y*p.y)");
+  mat_t id; mat_identity(&id); pt_t i = transform(id, p); __CPROVER_assert(i.x == p.x && i.y == p.y, "the default matrix is the identity map");
+  mat_t m; __CPROVER_assume(MOK(m)); mat_t l = mat_mul(id, m), r = mat_mul(m, id); __CPROVER_assert(MEQ(l, m) && MEQ(r, m), "identity * m == m * identity == m");
+  __CPROVER_assert(0, "VACUITY"); }
+void hz_inverse(void){ mat_t m; __CPROVER_assume(MOK(m) && m.a * m.d - m.b * m.c != 0);
+  mat_t inv = inverse(m); mat_t id; mat_identity(&id); mat_t l = mat_mul(inv, m), r = mat_mul(m, inv);
+  __CPROVER_assert(MEQ(l, id), "inverse(m) * m == identity for non-singular m");
+  __CPROVER_assert(MEQ(r, id), "m * inverse(m) == identity for non-singular m");
+  __CPROVER_assert(0, "VACUITY"); }
+#endif
+"""
+REPLAY_AFF = r"""
+#include <boost/gil.hpp>
+#include <boost/gil/extension/numeric/affine.hpp>
+#include <cmath>
+#include "vreplay.hpp"
+using namespace boost::gil;
+static bool close(double a, double b) { return std::fabs(a - b) <= 1e-9 * (1 + std::fabs(a) + std::fabs(b)); }
+int main(int argc, char** argv){ vr::parse(argc, argv); long bad = 0; using M = matrix3x2<double>;
+  M ms[] = { M(), M::get_translate(3, 5), M::get_translate(-2, 0), M::get_scale(2, 3), M::get_rotate(0.3), M::get_rotate(-1.1), M(1, 2, 3, 4, 5, 6), M(0.5, -1, 2, 0.25, -3, 7) };
+  point<double> ps[] = { {0, 0}, {1, 0}, {0, 1}, {2.5, -1.5}, {-3, 4} };
+  for (auto& m1 : ms) for (auto& m2 : ms) { M pr = m1 * m2;
+    for (auto& p : ps) { auto q1 = transform(pr, p), q2 = transform(m2, transform(m1, p)); if (!close(q1.x, q2.x) || !close(q1.y, q2.y)) { if (!bad) std::printf("transform(m1*m2, p) = (%g,%g) but transform(m2, transform(m1, p)) = (%g,%g)\n", q1.x, q1.y, q2.x, q2.y); bad++; } }
+    for (auto& m3 : ms) { M l = (m1 * m2) * m3, r = m1 * (m2 * m3); if (!close(l.a, r.a) || !close(l.b, r.b) || !close(l.c, r.c) || !close(l.d, r.d) || !close(l.e, r.e) || !close(l.f, r.f)) { if (!bad) std::printf("matrix product not associative\n"); bad++; } } }
+  for (auto& m : ms) { if (std::fabs(m.a * m.d - m.b * m.c) < 1e-6) continue; M i = inverse(m) * m; if (!close(i.a, 1) || !close(i.d, 1) || std::fabs(i.b) > 1e-9 || std::fabs(i.c) > 1e-9 || std::fabs(i.e) > 1e-9 || std::fabs(i.f) > 1e-9) { if (!bad) std::printf("inverse(m)*m = (%g %g %g %g %g %g)\n", i.a, i.b, i.c, i.d, i.e, i.f); bad++; } }
+  if (bad) REPRODUCED("%ld matrix3x2 identities fail on the sample matrices", bad);
+  NOT_REPRODUCED("matrix3x2 composition, associativity and inverse hold on the sample matrices"); }
+"""
+UNITS.append(Unit('affine', 'C17', AFF_C, extracts=X_AFF, replay=REPLAY_AFF,
+                  checks=[Check('compose', 'hz_compose', engine='Z', timeout=300), Check('assoc', 'hz_assoc', engine='Z', timeout=300),
+                          Check('builders', 'hz_builders', engine='Z', timeout=300), Check('inverse', 'hz_inverse', engine='Z', timeout=300)],
+                  preconditions=['matrix entries and point coordinates are integers in [-1024, 1024] (T = mathematical integers); inverse: only matrices whose inverse has integer entries'],
+                  assumed=['the element type T is a commutative ring; floating-point rounding of float / double instantiations is not modelled']))
+
 META = dict(not_covered=['the four bilinear weights summing to exactly 1 for arbitrary (non-integer) points: sums of products of symbolic floats, 3000 s time-out (harness h_bilinear_wsum is kept in the template but not registered); proved: every weight in [0,1], total weight 1 at integer coordinates',
                          'resample_pixels driver loop, resize_view identity, matrix3x2 algebra (floating-point identities up to rounding), lanczos scaling',
                          'the VALUE of the interpolation (weights times pixel values) beyond weights in [0,1] summing to 1 at neighbouring positions'])
